@@ -80,7 +80,7 @@ CLAIMED["C19"] = {
     "engine": "seqspace+choicetree",
     "technique": "bounded exhaustive exploration of circuit words x noise-model assignments against a numpy density-matrix reference; exhaustive enumeration of scripted cirq sampler answers, observing the mixed state handed to the sampler",
     "text": "Every circuit of depth <= 2 (thorough 3) over a 10-gate alphabet with 1-, 2- and 3-qubit gates (controls, multi-controlled CNOT, CSWAP) is combined with every assignment of {none, 4 pauli, 4 depol, 8 pauli+depol in both insertion orders} to each gate name present and to an absent name. Checked against a numpy density-matrix evolution (pauli channel per touched qubit, joint depolarisation of all touched qubits): the translated cirq circuit run on cirq's density-matrix simulator, the state kept by the backend and the matrix handed to the sampler; frequencies from every scripted sample; zero rates equal the noiseless state; for expectation values (6 observables, n_shots 1-2) the mixed state handed to the sampler for each term after the noisy basis rotation and the estimate arithmetic for every sample sequence; 14 malformed specifications, noise on sympy and noise without shots must be rejected, 3 boundary-valid ones accepted.",
-    "note": "Trusted: mc/ref/density.py (self-tested: trace preservation, 1-qubit depol == pauli(q/4,q/4,q/4), partial-trace form). Not covered: rates outside the alphabets, > 3 qubits, depth > 3, n_shots > 2, noise combined with mid-circuit measurement.",
+    "note": "Trusted: mc/ref/density.py (self-tested: trace preservation, 1-qubit depol == pauli(q/4,q/4,q/4), partial-trace form). Not covered: rates outside the alphabets, > 3 qubits, depth > 3, n_shots > 2; noise combined with mid-circuit measurement only for 4 two-qubit programs x 4 noise models.",
 }
 ENGINES[0]["serves_properties"] = ["C01", "C02", "C03", "C04", "C05", "C09", "C10", "C17", "C19"]
 ENGINES[2]["serves_properties"] = ["C01", "C02", "C10", "C19"]
@@ -106,7 +106,7 @@ CLAIMED["C18"] = {
     "engine": "seqspace+choicetree",
     "technique": "exhaustive enumeration of small operators x every shuffle sequence of the grouping heuristic (scripted RandomState), and of all small histograms x operations against Counter arithmetic; resampling through the scripted sampler with every draw sequence",
     "text": "Grouping: all 1940 operators of 1-4 distinct two-qubit words and ~300 three-qubit operators x coefficient alphabet x seeds x n_repeat, with the heuristic's shuffle scripted so that EVERY permutation sequence is explored (509k executions quick): groups partition the terms with coefficients, each term diagonal in its group's basis, compatible-basis map exact, expectation assembled from exact per-basis histograms equals the term-by-term value. Histograms: 22632 count histograms and 370 dyadic tables under +, +=, aggregate, remove_qubit_indices, post_select, msq_first, the four post-selection functions, with exact conservation of counts / normalisation and marginalisation invariance of term expectation values; resample / get_resampled_frequencies: the law over all scripted draw sequences equals the multinomial law of the frequencies. Un-owned random draws raise (exit 2).",
-    "note": "Trusted: mc/ref/hist.py Counter arithmetic and mc/ref/statevec.py. Not covered: operators with > 4 words / > 3 qubits, resampling with n > 3, chunked sampling path.",
+    "note": "Trusted: mc/ref/hist.py Counter arithmetic and mc/ref/statevec.py. Not covered: operators with > 4 words / > 3 qubits, resampling with n > 3 (beyond the constant-valued bulk draws at the chunk boundary).",
 }
 ENGINES[0]["serves_properties"] = ["C01", "C02", "C03", "C04", "C05", "C06", "C09", "C10", "C14", "C17", "C18", "C19"]
 ENGINES[1]["serves_properties"] = ["C07", "C11", "C16"]
@@ -145,3 +145,41 @@ CLAIMED["C08"] = {
 }
 ENGINES[0]["serves_properties"].append("C08")
 NOT_CLAIMED = {}
+
+# Families added after the seed waves 2 and 3 (DESIGN.md 8.1, 8.2): appended to the level text of each check.
+ADDENDA = {
+    "C01": "Added: controlled rotations at depth 1 with angles on both sides of the 2pi/4pi periods and rare-outcome angles (p = 3.6e-5, 1e-8); "
+           "E2 histories of simulate calls on ONE backend object (circuits of different widths, initial vectors) and on ONE Circuit object that is "
+           "modified in place between simulations (add_gate, variational parameter written, reindex_qubits, trim_qubits), depth <= 4 (5); repeat call with "
+           "the same argument objects; shot numbers on both sides of (multiples of) the 10**7 sampling chunk with constant-valued bulk draws.",
+    "C02": "Added: operator / circuit / initial vector unchanged and the same objects giving the same value again; post-selected finite-shot estimates on "
+           "registers of 9-12 qubits (measurement keys with two digits).",
+    "C03": "Added: symbolic CAR / adjoint check of all ladder operators on 8-17 (thorough up to 41) modes; every mapping applied three times to the same "
+           "operator object, the third time with the mapping name in another letter case.",
+    "C04": "Added: three routes to rotated orbitals (setter, explicit mo_coeff argument, live array modified in place) must give identical integrals; list-valued "
+           "frozen-orbital selections are handed over in one list object re-filled in place from pattern to pattern, with the Hamiltonian evaluated before each change.",
+    "C05": "Added: for scBK with the spin left at its default on both the circuit and the operator side.",
+    "C06": "Added: arguments (operator, time dictionary, pauli_order) unchanged, second call with the same objects identical, reversed insertion order of the time "
+           "dictionary; E2 histories of build_circuit calls on ONE TrotterSuzukiUnitary (342 / 6174 histories per object) vs fresh objects; Pauli words listed in "
+           "non-ascending qubit order; fermionic evolution in two register sizes (4 and 6 spin-orbitals) alternating in one process.",
+    "C07": "Added: vector with every entry beyond 2pi (both signs); the user-circuit ansatz is compared with the user's gate list with literal values; first-build "
+           "exceptions are violations.",
+    "C08": "Added: with penalty_terms the solver Hamiltonian equals H + sum w (O - t)^2 built from the reference N/Sz/S^2 under the solver's encoding; "
+           "operator_expectation with QubitOperator and FermionOperator inputs; the energy re-evaluated after all intermediate calls.",
+    "C10": "Added: deterministic programs on registers of 9-12 qubits with 1-2 mid-circuit measurements and finite shots (all tables and the post-selected expectation value).",
+    "C12": "Added: triplet H4 in the quick-tier conservation set.",
+    "C13": "Added: a second get_rdm on the same classical solver returns the same matrices.",
+    "C14": "Added: every ordered pair over a 12-gate single-qubit alphabet as two-gate pattern on an unentangled qubit.",
+    "C15": "Added: capping groups with exactly two / three atoms and a ghost off the origin; override dictionary of mi_summation unchanged and a second summation identical.",
+    "C16": "Added: empty operators in the pools; remove_terms histories before do_commute.",
+    "C17": "Added: wide registers (gates on / idle qubits beyond indices 9, 19, 99) for every format.",
+    "C18": "Added: per-basis histogram dictionary in three insertion orders; derived views (n_shots, n_qubits, frequencies) read before every in-place operation and "
+           "compared with a fresh histogram afterwards; resampling with shot numbers on both sides of the 10**7 chunk.",
+    "C19": "Added: E2 histories on ONE live NoiseModel + backend (add_quantum_error after use, simulate on shared / new backend, translate), depth <= 4 (5); noise "
+           "together with a mid-circuit MEASURE, a desired outcome and an initial statevector (retry loop explored with horizon 3 attempts).",
+    "C20": "Added: circuit unitaries that leave a qubit below their width idle; the StateVector object asked again after its first answers.",
+}
+for _k, _v in ADDENDA.items():
+    CLAIMED[_k]["text"] += " " + _v
+NOTES += (" An exception raised by the code under test on input the harness considers valid is reported as a violation "
+          "(uncaught-exception-in-code-under-test/...), with the shard as replay case.")
